@@ -32,6 +32,8 @@ type Flow struct {
 	Name   string   `json:"name"`
 	URL    string   `json:"url"`
 	Method []string `json:"method,omitempty"`
+	// FilterExtra: further filter lines as YAML, indented by two blanks (status_code, query_params, headers)
+	FilterExtra string `json:"filter_extra,omitempty"`
 	Procs  []Proc   `json:"procs"`
 	Req    []Conn   `json:"request"`
 	Resp   []Conn   `json:"response"`
@@ -94,6 +96,7 @@ func (f Flow) YAML() string {
 	if len(f.Method) > 0 {
 		fmt.Fprintf(&b, "  method: [%s]\n", strings.Join(f.Method, ", "))
 	}
+	b.WriteString(f.FilterExtra)
 	b.WriteString("processors:\n")
 	for _, p := range f.Procs {
 		b.WriteString(p.yaml())
